@@ -376,6 +376,8 @@ def check(ctx):
     from . import share
     share.borrow(ctx, "C10", ("R-C10.1",), "R-C01.6", count=30)
     share.borrow(ctx, "C06", ("R-C06.2", "R-C06.3"), "R-C01.7", count=30)
+    ctx.rule("R-C01.9", "a valid unit is not refused because of what the lexer was given before: input() starts from a clean cursor, so no token of an earlier text is delivered into this one (decided by the reset analysis of C09)")
+    share.borrow(ctx, "C09", ("R-C09.7",), "R-C01.9", count=6)
     ctx.require_instances("R-C01.3", 1200)
     ctx.info["explanation"] = ("grammar conformance on the automata extracted from the parser by abstract interpretation: exact vocabulary / token-type closure, FIRST-based guard adequacy at every decision point of every "
                                "production clone, and inclusion of an independently transcribed ISO C99 Annex A.2 (+ documented C11) grammar, decided on a sentence set that takes every choice of every reference production once and "
